@@ -1,11 +1,12 @@
 #!/bin/bash
-# run every claimed check (tier = $1, default quick) and print a one-line summary each
+# run every claimed check (tier = $1, default quick; extra gosym flags in $2) and print a one-line summary each
 tier=${1:-quick}
+extra=$2
 cd /verif
 for id in $(python3 -c "import json;print(' '.join(c['property_id'] for c in json.load(open('MANIFEST.json'))['checks']))"); do
   s=$(date +%s)
-  out=$(./bin/gosym check $id --tier $tier 2>&1); rc=$?
+  out=$(./bin/gosym check $id --tier $tier $extra 2>&1); rc=$?
   e=$(date +%s)
   echo "$id rc=$rc $((e-s))s viol=$(echo "$out" | grep -c '^VIOLATION') inconcl=$(echo "$out" | grep -c '^INCONCLUSIVE') known=$(echo "$out" | grep -c '^KNOWN-FINDING')"
-  echo "$out" | grep '^VIOLATION\|^INCONCLUSIVE\|^UNREPRODUCED' | head -5
+  echo "$out" | grep '^VIOLATION\|^INCONCLUSIVE\|^UNREPRODUCED' | cut -c1-300 | head -5
 done
